@@ -121,3 +121,27 @@ def stylesheet(rng, extras=False):
         v = rng.choice(varnames)
         out.append(".s1 { color: var(%s); background-color: #fff }\n.s2 { color: var(%s); background-color: %s }\n" % (v, v, rng.choice(["#eee", "#000", "#fff"])))
     return "".join(out)
+
+
+CARRY = ["@import url(\"theme.css\") screen;\n", "@font-face { font-family: \"A{B}\"; src: url(\"f;}.woff\") }\n",
+         "@keyframes spin { from { transform: rotate(0) } to { transform: rotate(360deg) } }\n", "@page :first { margin: 1in }\n",
+         "@unknown-rule foo bar { a: b; c { d: e } }\n", "@namespace svg url(http://www.w3.org/2000/svg);\n", "@layer base, theme;\n",
+         "/* a comment with { braces } and ; semicolons */\n", ".esc\\:name { content: \"\\22 quoted\\22\"; margin: 0 }\n",
+         ".uni-é::after { content: \"→ ✓\"; color: #222; background-color: #fff }\n", ".empty { }\n", ".hack { _zoom: 1; margin: 0 }\n",
+         ".url { background: url(data:image/png;base64,AAAA==) no-repeat; padding: 0 }\n", ".str { content: '/* not a comment */' }\n",
+         "a[href$=\".pdf\"] { color: #111; background-color: #eee }\n", "@media print { @page { margin: 0 } .np { display: none } }\n",
+         "@supports not (display: grid) { .f { float: left } }\n", ".imp { margin: 0 !important; color: #777 !important }\n",
+         "@media (min-width: 1px) { .deep { color: #888; background-color: #fff } @media (min-width: 2px) { .deeper { color: #999 } } }\n"]
+
+
+def carry_stylesheet(rng):
+    """a stylesheet full of things the tool must carry through untouched, with a few colour rules"""
+    parts = [rng.choice(CARRY) for _ in range(rng.randrange(3, 9))]
+    parts += [rule(rng, []) for _ in range(rng.randrange(1, 4))]
+    rng.shuffle(parts)
+    s = "".join(parts)
+    if rng.random() < 0.3:
+        s = "@charset \"utf-8\";\n" + s
+    if rng.random() < 0.1:
+        s += ".tail { color: #777 }"      # no trailing newline
+    return s
